@@ -221,6 +221,25 @@ pub fn run(ctx: &Ctx, rec: &mut Rec) {
     });
     // --- special ratios, zero operands, zoo pairs, random pairs
     let zoo = field_zoo(f);
+    // every zoo value as the *ratio* itself: (v, 1), (1, 1/v) and (v*d, d) for a random d
+    rec.declare_class("ratio-is-zoo-value");
+    {
+        let zoo_all = field_zoo(f);
+        par(rec, |w, n, rec| {
+            let mut rng = rng_for(ctx.seed, P, w, 61);
+            for (i, (v, _)) in zoo_all.iter().enumerate() {
+                if i % n != w || v == &b(0) {
+                    continue;
+                }
+                judge_sqrt(ctx, rec, v, &b(1), "ratio-is-zoo-value", false);
+                if let Some(inv) = f.inv(v) {
+                    judge_sqrt(ctx, rec, &b(1), &inv, "ratio-is-zoo-value", false);
+                }
+                let d = { let d = rand_below(&mut rng, &f.p); if d == b(0) { b(3) } else { d } };
+                judge_sqrt(ctx, rec, &f.mul(v, &d), &d, "ratio-is-zoo-value", false);
+            }
+        });
+    }
     par(rec, |w, n, rec| {
         let mut rng = rng_for(ctx.seed, P, w, 2);
         if w == 0 {
@@ -365,7 +384,23 @@ pub fn run_lazyinit(ctx: &Ctx, rec: &mut Rec) {
     let nthreads = 16usize;
     let barrier = std::sync::Arc::new(std::sync::Barrier::new(nthreads));
     let mut rng = rng_for(ctx.seed, P, 4242, std::process::id() as u64);
-    let inputs: Vec<(B, B)> = (0..nthreads).map(|i| if i == 0 { (b(1), b(4)) } else { (rand_below(&mut rng, &f.p), rand_below(&mut rng, &f.p)) }).collect();
+    // the very first call of the process is a case of its own (cold-start paths): depending on the process it is
+    // one of the zero-operand cases, a ratio with a chosen structure, or random, made alone before the race
+    {
+        let pid = std::process::id() as usize + ctx.seed as usize;
+        let first: (B, B) = match pid % 6 {
+            0 => (b(0), b(0)),
+            1 => (b(0), rand_below(&mut rng, &f.p)),
+            2 => (rand_below(&mut rng, &f.p), b(0)),
+            3 => (b(1), b(1)),
+            4 => (ctx.c.zeta.clone(), b(1)),
+            _ => (rand_below(&mut rng, &f.p), rand_below(&mut rng, &f.p)),
+        };
+        if pid % 2 == 0 {
+            judge_sqrt(ctx, rec, &first.0, &first.1, "first-call-of-process", false);
+        }
+    }
+    let inputs: Vec<(B, B)> = (0..nthreads).map(|i| match i { 0 => (b(1), b(4)), 1 => (b(0), b(0)), 2 => (b(0), b(5)), 3 => (b(5), b(0)), _ => (rand_below(&mut rng, &f.p), rand_below(&mut rng, &f.p)) }).collect();
     let results: Vec<Result<(bool, B), String>> = std::thread::scope(|s| {
         let hs: Vec<_> = inputs
             .iter()
@@ -393,7 +428,13 @@ pub fn run_lazyinit(ctx: &Ctx, rec: &mut Rec) {
                 let ratio = f.div(num, den).unwrap_or(b(0));
                 let is_sq = f.legendre(&ratio) == 1;
                 let rhs = if is_sq { num.clone() } else { f.mul(&ctx.c.zeta, num) };
-                if num != &b(0) && den != &b(0) && (w != is_sq || f.mul(&f.sq(&y), den) != rhs) {
+                if num == &b(0) || den == &b(0) {
+                    // zero-operand cases of the contract: (0, *) -> (true, 0); (x, 0) -> (false, 0)
+                    let want_flag = num == &b(0);
+                    if w != want_flag || y != b(0) {
+                        rec.violation(format!("{P}:lazy-init:zero-case"), "a zero-operand case answered wrongly by a (racing) first use", json!({"num": hexs(num), "den": hexs(den), "was_square": w, "y": hexs(&y)}));
+                    }
+                } else if w != is_sq || f.mul(&f.sq(&y), den) != rhs {
                     rec.violation(format!("{P}:lazy-init:wrong-result"), "result of a racing first use violates the contract", json!({"num": hexs(num), "den": hexs(den), "was_square": w, "y": hexs(&y)}));
                 }
             }
